@@ -579,6 +579,68 @@ def _run(c):
             if want is None:
                 c.cov.setdefault("c_enumerators_without_python_name", []).append(en)
             del sim
+    # ---- order independence: every ordered pair (previous setting A -> new setting B) on the SAME simulation, B given by
+    # name (as in the dictionary and upper-cased where the setter normalises case) and by integer; the C bytes must be B's
+    # enumerator and the property must read back B whatever A was (a setter that drops a write - e.g. `if value:` for the
+    # value 0 - is invisible on a fresh simulation whose default already is B)
+    rule.append("order independence: for every family all k^2 ordered pairs (set A, then set B by name / by integer on the same simulation; "
+                "C bytes and read-back must be B's)")
+    pair_cases = 0
+    for fam in ref["options"]:
+        holder, off, size, m = locate(fam)
+        if m["kind"][0] != "enm":
+            continue
+        enum = dict(cs["enums"][m["kind"][1]])
+        items = py["dicts"].get(fam["dict"], {}).get("items", [])
+        cval = {}
+        for name, pyval in items:
+            cand = [ev for en, ev in enum.items() if en.startswith(fam["prefix"]) and norm(en[len(fam["prefix"]):]) == norm(name)]
+            if len(cand) == 1:
+                cval[name] = cand[0] % (1 << (8 * size))
+        # does the setter normalise case?  (decided on the real code: the upper-cased spelling is accepted on a fresh sim)
+        def accepts(sp):
+            try:
+                s0 = rebound.Simulation()
+                setattr(holder(s0), fam["property"], sp)
+                return True
+            except Exception:
+                return False
+        for a_name, a_val in items:
+            if a_name not in cval:
+                continue
+            for b_name, b_val in items:
+                if b_name not in cval:
+                    continue
+                spellings = [("name", b_name), ("int", int(b_val))]
+                if b_name.upper() != b_name and accepts(b_name.upper()):
+                    spellings.append(("NAME", b_name.upper()))
+                for how, b_in in spellings:
+                    sim = rebound.Simulation()
+                    obj = holder(sim)
+                    pair_cases += 1
+                    c.count(("pair", fam["dict"], fam["property"], a_name, b_name, how), nontrivial=(a_name != b_name))
+                    try:
+                        setattr(obj, fam["property"], a_name)
+                        if cbytes(sim, off, size) != cval[a_name]:
+                            continue      # the first assignment itself is wrong: reported by the single-step sweep
+                        setattr(obj, fam["property"], b_in)
+                    except Exception as e:
+                        if fam["property"] in py["classes"][fam["class"]].get("shadowed", []):
+                            continue
+                        c.violation("option-sequence-raises:%s.%s" % (fam["class"], fam["property"]),
+                                    "%s.%s = %r then = %r raises %s: %s" % (fam["class"], fam["property"], a_name, b_in, type(e).__name__, str(e)[:100]),
+                                    {"python": "o.%s = %r; o.%s = %r" % (fam["property"], a_name, fam["property"], b_in)})
+                        continue
+                    got = cbytes(sim, off, size)
+                    back = getattr(obj, fam["property"])
+                    if got != cval[b_name] or back != b_name:
+                        c.violation("option-after-previous:%s.%s=%s" % (fam["class"], fam["property"], b_name),
+                                    "%s.%s = %r, then = %r on the same simulation: C sees %d at %s.%s (expected %d), reads back %r"
+                                    % (fam["class"], fam["property"], a_name, b_in, got, fam["struct"], fam["member"], cval[b_name], back),
+                                    {"python": "sim = rebound.Simulation(); o = <%s of sim>; o.%s = %r; o.%s = %r" % (fam["class"], fam["property"], a_name, fam["property"], b_in),
+                                     "c_offset": off, "c_bytes_after": got, "expected": cval[b_name], "read_back": back, "previous": a_name})
+                    del sim
+    c.cov["option_pair_cases"] = pair_cases
     # SABA shortcuts:  sim.integrator = "saba" + type
     fam_i = [f for f in ref["options"] if f["dict"] == "INTEGRATORS"]
     fam_s = [f for f in ref["options"] if f["dict"] == "SABA_TYPES"]
@@ -631,6 +693,54 @@ def _run(c):
             c.violation(key, "%s.%s = %r stores %#x at %s.%s; &%s = %s" % (fo["cls"], fo["prop"], fo["name"], got, fam["struct"], fam["member"], want_sym, hex(addr) if addr else None),
                         {"python": "%s.%s = %r" % (fo["cls"], fo["prop"], fo["name"]), "stored": got, "symbol": want_sym, "address": addr})
         del sim
+
+    # ---- order independence for function-pointer options: X, then Y; X, then a Python callable, then Y
+    rule.append("function-pointer options: all ordered pairs X -> Y and X -> python callable -> Y on the same simulation")
+    byfam = {}
+    for fo in py["fnopts"]:
+        byfam.setdefault((fo["cls"], fo["prop"]), []).append(fo["name"])
+    fn_pairs = 0
+    for (fcls, fprop), names in byfam.items():
+        fams = [f for f in ref["fn_options"] if f["class"] == fcls and f["property"] == fprop]
+        if not fams:
+            continue
+        fam = fams[0]
+        holder, off, size, m = locate({"struct": fam["struct"], "member": fam["member"], "class": fam["class"]})
+        addr = {}
+        for nm in names:
+            try:
+                addr[nm] = ctypes.cast(getattr(clib, fam["prefix"] + nm), ctypes.c_void_p).value
+            except AttributeError:
+                pass
+        for x in names:
+            for y in names:
+                for via_callable in (False, True):
+                    if x not in addr or y not in addr:
+                        continue
+                    sim = rebound.Simulation()
+                    obj = holder(sim)
+                    fn_pairs += 1
+                    c.count(("fnpair", fcls, fprop, x, y, via_callable), nontrivial=(x != y or via_callable))
+                    try:
+                        setattr(obj, fprop, x)
+                        mid = None
+                        if via_callable:
+                            setattr(obj, fprop, lambda *a: 0)
+                            mid = cbytes(sim, off, size)
+                        setattr(obj, fprop, y)
+                    except Exception as e:
+                        c.violation("fnopt-sequence-raises:%s.%s" % (fcls, fprop), "%s.%s = %r%s then = %r raises %s" % (fcls, fprop, x, ", a callable," if via_callable else "", y, e),
+                                    {"python": "o.%s = %r; o.%s = %r" % (fprop, x, fprop, y)})
+                        continue
+                    got = cbytes(sim, off, size)
+                    if got != addr[y] or (via_callable and (mid in addr.values() or not mid)):
+                        c.violation("fnopt-after-previous:%s.%s=%s" % (fcls, fprop, y),
+                                    "%s.%s = %r%s, then = %r: C member %s.%s holds %#x, &%s%s = %#x%s" % (fcls, fprop, x, ", then a Python callable" if via_callable else "", y,
+                                                                                                   fam["struct"], fam["member"], got, fam["prefix"], y, addr[y],
+                                                                                                   "" if not via_callable else " (after the callable: %#x)" % (mid or 0)),
+                                    {"python": "o.%s = %r; %so.%s = %r" % (fprop, x, "o.%s = (lambda *a: 0); " % fprop if via_callable else "", fprop, y), "stored": got, "expected": addr[y]})
+                    del sim
+    c.cov["fn_option_pair_cases"] = fn_pairs
 
     # ================================================================ shadowed properties (F6 pattern), on the real classes
     for cname, v in py["classes"].items():
